@@ -155,6 +155,13 @@ def precedence(ck, module, fn, target, specific, general, what, key, rule='PREC-
         if cp and up:
             ok = True
             detail = '`{} = {}.copy(); {}.update({})`: the update wins'.format(target, general, target, specific)
+    if not ok:
+        # the merge written as one expression under another (or no) intermediate name: any assignment of the function that merges exactly these two
+        found = [(st, merge_winner(st.value)) for st in walk_local(fn) if isinstance(st, ast.Assign) and merge_winner(st.value) is not None]
+        found = [(st, w) for st, w in found if {w[0], w[1]} == {specific, general}]
+        if len(found) == 1:
+            ok = found[0][1][0] == specific
+            detail = '`{}`: on a key collision `{}` wins'.format(u(found[0][0])[:80], found[0][1][0])
     ck.analysed(module, fn)
     ck.ob(rule, module.loc(fn), ok, '{}: {}'.format(what, detail), key=key)
 
@@ -756,9 +763,20 @@ def runs_every_molecule(ck, rel, clsname, rule, allow_filter=None):
     super().run_system(system) unconditionally, or loops over system.molecules calling run_molecule unconditionally."""
     proc = ck.index.mod('vermouth/processors/processor.py')
     base = ck.need(method(proc.cls('Processor'), 'run_system'), 'Processor.run_system vanished')
-    loops = [l for l in base.body if isinstance(l, ast.For) and u(l.iter) == 'system.molecules']
-    ok_base = len(loops) == 1 and len(loops[0].body) == 1 and 'self.run_molecule({})'.format(u(loops[0].target)) in u(loops[0].body[0]) and \
-        any(isinstance(s_, ast.Assign) and u(s_.targets[0]) == 'system.molecules' for s_ in base.body)
+    # interpreted (own interpreter) on stand-in systems of 0, 1 and 3 molecules: afterwards system.molecules is the list of run_molecule's results, in order --
+    # whatever the spelling (loop with append, comprehension, map)
+    from .. import interp as _interp
+    ok_base = True
+    try:
+        for mols_ in ([], ['m0'], ['m0', 'm1', 'm2'], ['m0', None, 'm0']):
+            env_ = {'system.molecules': list(mols_), 'self.run_molecule': lambda m_: ('ran', m_), 'map': lambda f_, xs_: [f_(x_) for x_ in xs_]}
+            try:
+                _interp.run_stmts(base.body, env_)
+            except _interp.Returned:
+                pass
+            ok_base = ok_base and list(env_.get('system.molecules', ())) == [('ran', m_) for m_ in mols_]
+    except (_interp.Unsupported, KeyError, TypeError, AttributeError):
+        ok_base = False
     ck.ob(rule, proc.loc(base), ok_base, 'Processor.run_system runs run_molecule on every molecule of the system, unconditionally, and stores the results', key=rule + '|Processor.run_system')
     module = ck.index.mod(rel)
     cls = module.cls(clsname)
@@ -1507,3 +1525,62 @@ def _stmt_of(t, parents):
         if isinstance(p, ast.stmt):
             return p
     return t
+
+
+def fused_string_sites(source):
+    """[(line, text)] of collection displays / argument lists made of string literals only (three or more elements) in which two literals follow each other
+    without a comma: Python joins them into one string ('HIP' 'ASPP' is 'HIPASPP'), so the table silently loses two members and gains a wrong one."""
+    import io
+    import tokenize
+    out = []
+    stack = []        # frames: dict(elements=[(n_strings, only_strings)], cur_strings, cur_other, line)
+    try:
+        toks = list(tokenize.generate_tokens(io.StringIO(source).readline))
+    except (tokenize.TokenError, IndentationError, SyntaxError):
+        return out
+    for tok in toks:
+        if tok.type in (tokenize.NL, tokenize.COMMENT, tokenize.NEWLINE, tokenize.INDENT, tokenize.DEDENT):
+            continue
+        if tok.type == tokenize.OP and tok.string in '([{':
+            if stack:
+                stack[-1]['cur_other'] += 1
+            stack.append({'elements': [], 'cur_strings': [], 'cur_other': 0, 'line': tok.start[0]})
+            continue
+        if tok.type == tokenize.OP and tok.string in ')]}':
+            if not stack:
+                continue
+            fr = stack.pop()
+            if fr['cur_strings'] or fr['cur_other']:
+                fr['elements'].append((fr['cur_strings'], fr['cur_other'] == 0))
+            els = fr['elements']
+            if len(els) >= 3 and all(only for _s, only in els) and any(len(s_) >= 2 for s_, _o in els):
+                fused = next(s_ for s_, _o in els if len(s_) >= 2)
+                out.append((fused[0][1], ' '.join(t for t, _l in fused)))
+            continue
+        if not stack:
+            continue
+        fr = stack[-1]
+        if tok.type == tokenize.OP and tok.string == ',':
+            if fr['cur_strings'] or fr['cur_other']:
+                fr['elements'].append((fr['cur_strings'], fr['cur_other'] == 0))
+            fr['cur_strings'], fr['cur_other'] = [], 0
+        elif tok.type == tokenize.STRING:
+            fr['cur_strings'].append((tok.string, tok.start[0]))
+        else:
+            fr['cur_other'] += 1
+    return out
+
+
+def no_fused_strings(ck, rels, rule='TAB-fused-strings'):
+    n = 0
+    for rel in rels:
+        module = ck.index.mod(rel)
+        src = getattr(module, 'src', None)
+        if src is None:
+            continue
+        for line, text in fused_string_sites(src):
+            n += 1
+            ck.ob(rule, '{}:{}'.format(rel, line), False, 'a table of string literals has two of them fused by a missing comma: {} is one string'.format(text[:60]),
+                  key='{}|{}|{}'.format(rule, rel, text[:40]))
+    ck.ob(rule, rels[0] if rels else '-', True, 'tables of string literals with two literals fused by a missing comma in {} module(s): {}'.format(len(rels), n),
+          key=rule + '|scan')
